@@ -456,3 +456,95 @@ def all_combinations(manager, bins1, bins2, table=None):
             res.append(([num(s) for s in sums], [[norm_name(x) for x in l] for l in lists]))
         return res
     return guarded(run)
+
+
+# ------------------------------------------------------------------ anytime algorithms under a counting clock (C11)
+
+class CountingClock:
+    """Stands in for the `time` module inside an anytime algorithm: perf_counter() returns 0, 1, 2, ..."""
+    def __init__(self, real):
+        self._real = real
+        self.reads = 0
+
+    def perf_counter(self):
+        r = self.reads
+        self.reads += 1
+        return float(r)
+
+    def __getattr__(self, name):
+        return getattr(self._real, name)
+
+
+@contextlib.contextmanager
+def counting_clock(module_name):
+    """Replace the module attribute `time` of the algorithm's module (and, for robustness against a re-binding,
+    time.perf_counter itself) by a counting clock for the duration of one call."""
+    import importlib
+    import time as real_time
+    mod = importlib.import_module(module_name)
+    clock = CountingClock(real_time)
+    had = hasattr(mod, "time")
+    saved_attr = getattr(mod, "time", None)
+    saved_pc = real_time.perf_counter
+    mod.time = clock
+    real_time.perf_counter = clock.perf_counter
+    try:
+        yield clock
+    finally:
+        real_time.perf_counter = saved_pc
+        if had:
+            mod.time = saved_attr
+        else:
+            del mod.time
+
+
+def _norm_bins_result(res):
+    """None | 'placeholder' | (sums, lists) from what an anytime algorithm returned when called with a contents manager."""
+    if res is None:
+        return None
+    if not (isinstance(res, (tuple, list)) and len(res) == 2):
+        raise MalformedOutput(f"a (sums, lists) pair or None was expected, got {repr(res)[:80]}")
+    sums, lists = res
+    fsums = [float(s) for s in sums]
+    if any(s in (float("inf"), float("-inf")) or s != s for s in fsums):
+        return "placeholder"
+    return ([num(s) for s in sums], [[norm_name(x) for x in b] for b in lists])
+
+
+def anytime_call(alg, presented, numbins, opts, time_limit):
+    """Call complete greedy / cbldm *directly* with a contents-keeping manager under a counting clock.
+    time_limit None = no limit.  Returns (Outcome with value None|'placeholder'|(sums, lists), number of clock readings)."""
+    valueof = presented.valueof
+    items = presented.items
+    if isinstance(items, dict):
+        valueof, items = items.__getitem__, list(items.keys())
+    if valueof is None:
+        valueof = lambda x: x                                  # noqa: E731
+    binner = prtpy.BinnerKeepingContents(valueof)
+    kw = build_opts(alg, opts)
+    kw.pop("time_limit", None)
+    if time_limit is not None:
+        kw["time_limit"] = time_limit
+    if alg == "cg":
+        module, fn = "prtpy.partitioning.complete_greedy", prtpy.partitioning.complete_greedy
+    else:
+        module, fn = "prtpy.partitioning.cbldm", prtpy.partitioning.cbldm
+    with counting_clock(module) as clock:
+        out = guarded(lambda: _norm_bins_result(fn(binner, numbins, items, **kw)))
+    return out, clock.reads
+
+
+def ckk_generator_yields(presented, numbins):
+    """Every partition yielded by the complete Karmarkar-Karp generator, snapshotted at the moment it is yielded."""
+    from prtpy.partitioning.complete_karmarkar_karp_sy import generator
+    valueof = presented.valueof
+    items = presented.items
+    if isinstance(items, dict):
+        valueof, items = items.__getitem__, list(items.keys())
+    if valueof is None:
+        valueof = lambda x: x                                  # noqa: E731
+    binner = prtpy.BinnerKeepingContents(valueof)
+
+    def run():
+        return [_norm_bins_result(y) for y in generator(binner, numbins, items)]
+    return guarded(run)
